@@ -114,6 +114,9 @@ func propertyTargets(p *vc.Prog, id string) (fns []*ssa.Function, lemmas []*spec
 			for _, r := range fc.Requires {
 				tagged = tagged || hasTag(r.Tags, id)
 			}
+			for _, r := range fc.Stream {
+				tagged = tagged || hasTag(r.Tags, id)
+			}
 			if !tagged {
 				continue
 			}
